@@ -514,7 +514,7 @@ def orders2(max_ticks):
 def gen_cases(rng, tier):
     out = []
     if tier == "quick":
-        n_rand, n_small = 900, 500
+        n_rand, n_small = 700, 400
     elif tier == "thorough":
         n_rand, n_small = 9000, 0
     else:   # search
@@ -532,7 +532,7 @@ def gen_cases(rng, tier):
         scheds = list(orders2(3))
         for k, p in enumerate(small):
             for j, (pre, sched) in enumerate(scheds):
-                if (k + j) % 4 == 0:       # a quarter of the product: 600 programs x ~300 schedules
+                if (k + j) % 5 == 0:       # a fifth of the product: 605 programs x 252 schedules
                     out.append(mk(p, pre, sched, 200, force_gen=(j % 2 == 0)))
     else:
         scheds = list(orders2(2))
@@ -634,7 +634,7 @@ ASSUMPTIONS = [
     "quiescence: both forms are compared once their loop's ready queue is empty; that every schedule drains after finitely many ticks (liveness) is not proved, it is checked on every generated case (200-tick budget, flag in the observable)",
 ]
 RULE = ("random programs (depth <= 4, <= 4 futures) x random schedules of completions (result / exception / cancel / already done / never) and single-callback ticks; "
-        "thorough adds every 2-atom program x every outcome pair x every completion order around <= 3 ticks (quarter of the product); "
+        "thorough adds every 2-atom program x every outcome pair x every completion order around <= 3 ticks (a fifth of the product); "
         "distinct by (program, pre, schedule, fuel); non-trivial = program contains a yield, raise or try")
 LEVEL_TEXT = ("Machine-checked (Coq) proof that, for every program of the grammar and every schedule of future completions/cancellations and "
               "single loop callbacks, the gen.coroutine wrapper + Runner and an asyncio Task driving the same body reach, at quiescence, the same "
